@@ -155,7 +155,7 @@ func trustedResourceURLFormat(format string, args map[string]string) (TrustedRes
 		// segments or URL components.
 		return safehtmlutil.QueryEscapeURL(argVal)
 	})
-	if err == nil && !safehtmlutil.URLContainsDoubleDotSegment(trustedResourceURLFormatMarkerPattern.ReplaceAllString(format, "")) && safehtmlutil.URLContainsDoubleDotSegment(ret) {
+	if err == nil && safehtmlutil.URLDoubleDotSegmentCount(ret) > safehtmlutil.URLDoubleDotSegmentCount(trustedResourceURLFormatMarkerPattern.ReplaceAllString(format, "")) {
 		// Arguments that are individually free of ".." can still form one together with
 		// each other or with adjacent '.' runes in the format string.
 		err = fmt.Errorf(`arguments must not introduce ".." into the format string %q`, format)
@@ -202,7 +202,7 @@ func TrustedResourceURLAppend(t TrustedResourceURL, s string) (TrustedResourceUR
 		return TrustedResourceURL{}, fmt.Errorf("cannot append to TrustedResourceURL %q because it has an unsafe prefix", t)
 	}
 	ret := t.str + safehtmlutil.QueryEscapeURL(s)
-	if !safehtmlutil.URLContainsDoubleDotSegment(t.str) && safehtmlutil.URLContainsDoubleDotSegment(ret) {
+	if safehtmlutil.URLDoubleDotSegmentCount(ret) > safehtmlutil.URLDoubleDotSegmentCount(t.str) {
 		return TrustedResourceURL{}, fmt.Errorf(`cannot append %q to TrustedResourceURL %q: ".." is disallowed`, s, t)
 	}
 	return TrustedResourceURL{ret}, nil
